@@ -374,6 +374,10 @@ impl<'tcx> Cx<'tcx> {
         if let ty::Ref(_, inner, _) = ty.kind() {
             let small = match inner.kind() {
                 ty::Array(elem, _) => elem.is_integral(),
+                // `&Some(&0)` and friends: Option of an integer or of a reference to one
+                ty::Adt(def, args) if tcx.def_path_str(def.did()).ends_with("option::Option") => {
+                    args.types().next().map_or(false, |t| t.is_integral() || matches!(t.kind(), ty::Ref(_, i2, _) if i2.is_integral()))
+                }
                 _ => inner.is_integral(),
             };
             if small && !format!("{:?}", c).contains("/#") {
@@ -388,6 +392,20 @@ impl<'tcx> Cx<'tcx> {
                                 let bytes = a.inspect_with_uninit_and_ptr_outside_interpreter(start..len);
                                 let bj: Vec<J> = bytes.iter().map(|b| J::Int(*b as i128)).collect();
                                 v.push(("ref_bytes", J::Arr(bj)));
+                                // pointers stored inside the constant: the bytes they point to (one level)
+                                let mut inner_j: Vec<J> = Vec::new();
+                                for (poff, prov2) in a.provenance().ptrs().iter() {
+                                    if let Some(rustc_middle::mir::interpret::GlobalAlloc::Memory(alloc2)) = tcx.try_get_global_alloc(prov2.alloc_id()) {
+                                        let a2 = alloc2.inner();
+                                        if a2.len() <= 64 {
+                                            let b2 = a2.inspect_with_uninit_and_ptr_outside_interpreter(0..a2.len());
+                                            inner_j.push(J::Arr(vec![J::Int(poff.bytes() as i128), J::Arr(b2.iter().map(|b| J::Int(*b as i128)).collect())]));
+                                        }
+                                    }
+                                }
+                                if !inner_j.is_empty() {
+                                    v.push(("ref_inner", J::Arr(inner_j)));
+                                }
                             }
                         }
                     }
